@@ -343,6 +343,11 @@ func (x *Exec) step(s *State, f *Frame, ins ssa.Instruction) bool {
 			return true
 		}
 		x.NForks++
+		if dbgFork != "" && strings.Contains(f.Info.Fn.String(), dbgFork) {
+			showDepth = 6
+			fmt.Printf("FORK in %s tags=%v cond=%s\n", f.Info.Fn.Name(), s.Tags, x.tb.Show(c))
+			showDepth = 4
+		}
 		s2 := s.clone()
 		x.constrain(s, c)
 		x.constrain(s2, tb.Not(c))
@@ -967,6 +972,7 @@ func (x *Exec) sliceElems(s *State, sv *SliceVal) ([]Value, bool) {
 }
 
 var traceFn = os.Getenv("GOSMT_TRACEFN")
+var dbgFork = os.Getenv("GOSMT_DEBUGFORK")
 var profTerms = os.Getenv("GOSMT_PROFTERMS") != ""
 
 func (x *Exec) showVal(v Value) string {
